@@ -30,7 +30,11 @@ WATER_NOTE = ("modelled: drainage.py, rainfall_partition.py, irrigation.py, infi
 
 reg(Prop("C02", "rain and irrigation are fully partitioned at the surface",
     [("rainirr", 8000, 100000), ("infiltration", 8000, 100000), ("drainage", 4000, 50000)],
-    trace_mon("C02", 60, 900, bunds=lambda r: r.random() < 0.35),
+    trace_mon("C02", 60, 900, bunds=lambda r: r.random() < 0.4,
+              # the day the bunds are removed with water still ponded (negative reported infiltration): bunds in the season, none in the
+              # fallow, off-season simulated, >= 2 seasons, slowly draining soil
+              off_season=lambda r: r.random() < 0.6, seasons=lambda r: r.choice([1, 2, 2, 3]),
+              soil_type=lambda r: r.choice(["Paddy", "Clay", "SiltClay", "ClayLoam"]) if r.random() < 0.35 else r.choice(sim.SOILS)),
     [R_AX, WATER_NOTE],
     [EXACT, "effective curve number in (0,100] (the property's own restriction); FluxOut entering infiltration is at most Ksat (proved for drainage's output: drainage_flux_le_ksat); ponding within [0, bund height] at the start of the day (C03 invariant)"],
     "L1: rain 0-300 mm incl. exactly 0.05*S, z_cn on/off compartment boundaries, bunds/sr_inhb, cn 30-100 and > 100 (malformed stream); infiltration with bunds on/off, "
